@@ -442,6 +442,8 @@ class DataOps:
                     a, b = dv[k + 1], dv[-1]
                 elif k > 0:
                     a, b = dv[0], dv[k - 1]
+        if o['a'][5] % 2 and float(a).is_integer() and float(b).is_integer():
+            a, b = int(a), int(b)          # integer window bounds
         try:
             res = src.obj.subset_time(by, a, b)
         except Exception as e:
